@@ -116,6 +116,14 @@ fn run_history(cx: &Ctx, hist: &[Op]) -> (Vec<StepObs>, String) {
                     // an attributed connection that the proxy accepted and dropped without answering: if its kernel record
                     // is still in the map, the proxy let a connection go without consuming its record (anything that later
                     // connects from that port would inherit it); otherwise the harness lost its footing
+                    if e.contains("Ok(421)") {
+                        // the sentinel's own fresh kernel record was written right before it connected: being told "no record"
+                        // means something else took that record away (or the lookup used another connection's key)
+                        problems.push(("attributed-connection-treated-as-unattributed".into(), format!("a connection whose kernel record (source port {SENTINEL_PORT}) had just been written was answered 421 (no record): the record was consumed by something other than this connection's accept")));
+                        cx.w.clear_audit();
+                        out.push(StepObs { problems });
+                        return (out, "aborted".into());
+                    }
                     if cx.w.audit_present(SENTINEL_PORT) {
                         problems.push(("record-not-consumed-at-accept:connection-dropped".into(), format!("an attributed connection was accepted and dropped without an answer ({e}) and its kernel record (source port {SENTINEL_PORT}) is still in the audit map")));
                         cx.w.clear_audit();
@@ -501,8 +509,83 @@ fn main() {
             cx.w.clear_audit();
             let _ = cx.sentinel();
         }
+        // order 3: B (diverted, record written, accepted, served n times) stays open; then A comes straight to the
+        // listener from the other address with the same port number, no record having been written for it
+        for served in [0usize, 1, 3] {
+            cx.w.clear_audit();
+            let cur = cx.w.hosts.cursors();
+            cx.w.inject_audit(p2, &alice);
+            let mut b = open([127, 0, 0, 2]).unwrap();
+            let mut sb = Ok(200);
+            for _ in 0..served {
+                sb = ask(&mut b);
+            }
+            let _ = cx.sentinel();
+            let mut a = open([127, 0, 0, 1]).unwrap();
+            let sa = ask(&mut a);
+            let sb2 = ask(&mut b);
+            two_addr_cases += 1;
+            let upstream: usize = cx.w.hosts.all().iter().enumerate().map(|(i, h)| h.requests_since(cur[i]).iter().filter(|(_, m)| m.target() == "/a/x").count()).sum();
+            if sa != Ok(421) || sb != Ok(200) || sb2 != Ok(200) || upstream != served + 1 {
+                res.violation("same-port-two-addresses:direct-connection-while-the-diverted-one-is-open", &format!("the diverted connection 127.0.0.2:{p2} was accepted, served {served} request(s) and kept open; then the direct connection 127.0.0.1:{p2} got {:?} (want 421); the diverted connection got {:?} / {:?} (want 200), {upstream} request(s) upstream (want {})", sa, sb, sb2, served + 1), json!({"family": "same-port-two-addresses", "order": "diverted connection open, then direct connection", "served": served}));
+            }
+            a.close();
+            b.close();
+            cx.w.clear_audit();
+            let _ = cx.sentinel();
+        }
     }
     res.cov("same_port_two_addresses_cases", two_addr_cases);
+
+    // ---- family: the destination of every request on a connection is the recorded one, whatever its Host header names
+    // and whether or not the host has closed the relay connection in between (the proxy has to open a new one then)
+    let mut host_hdr_cases = 0u64;
+    {
+        use std::sync::Arc;
+        use vcommon::rawhttp::{simple_response, Action, Msg};
+        let closing = Arc::new(std::sync::atomic::AtomicBool::new(false));
+        let c2 = closing.clone();
+        cx.w.hosts.imds.set_responder(Arc::new(move |m: &Msg, _c, _i| {
+            let r = vec![simple_response(200, &[], b"imds")];
+            if c2.load(std::sync::atomic::Ordering::SeqCst) && m.target().starts_with("/a/first") {
+                Action::ReplyClose(r)
+            } else {
+                Action::Reply(r)
+            }
+        }));
+        let alice = cx.rec(Ident::Alice).unwrap();
+        let p3 = 41555u16;
+        let idx_imds = cx.w.hosts.all().iter().position(|h| h.addr.to_string() == IMDS).unwrap();
+        for host_closes in [false, true] {
+            closing.store(host_closes, std::sync::atomic::Ordering::SeqCst);
+            for named in ["168.63.129.16", "168.63.129.16:80", "168.63.129.16:32526", "127.0.0.2:8081", "127.0.0.1:3080", "169.254.169.254:8080"] {
+                for gap_ms in [0u64, 30] {
+                    cx.w.clear_audit();
+                    let cur = cx.w.hosts.cursors();
+                    let mut c = match cx.w.connect(Some(p3), Some(&alice)) {
+                        Ok(c) => c,
+                        Err(e) => vcommon::result::machinery(&format!("connect from {p3}: {e}")),
+                    };
+                    let first = c.send(&build_request("GET", "/a/first", &[("Host", IMDS.as_bytes()), ("Metadata", b"true")], None, None)).map_err(|e| e.to_string()).and_then(|_| c.read_response(false, Duration::from_secs(10)).map(|m| m.status()));
+                    std::thread::sleep(Duration::from_millis(gap_ms));
+                    let second = c.send(&build_request("GET", "/a/second", &[("Host", named.as_bytes()), ("Metadata", b"true")], None, None)).map_err(|e| e.to_string()).and_then(|_| c.read_response(false, Duration::from_secs(10)).map(|m| m.status()));
+                    c.close();
+                    host_hdr_cases += 1;
+                    let elsewhere: Vec<String> = cx.w.hosts.all().iter().enumerate().filter(|(i, _)| *i != idx_imds).flat_map(|(i, h)| h.requests_since(cur[i]).into_iter().filter(|(_, m)| m.target().starts_with("/a/")).map(move |(_, m)| format!("{} got {} {}", h.addr, m.method(), m.target())).collect::<Vec<_>>()).collect();
+                    if first != Ok(200) || !elsewhere.is_empty() {
+                        res.violation(
+                            "request-relayed-to-an-endpoint-other-than-the-recorded-one",
+                            &format!("connection recorded for {IMDS}; first request got {:?}; {} the second request (Host: {named}, {gap_ms} ms later) got {:?}; requests seen at other endpoints: {:?}", first, if host_closes { "the host closed the relay connection after its answer;" } else { "" }, second, elsewhere),
+                            json!({"family": "host-header-names-another-endpoint", "host_closes_relay_connection": host_closes, "host_header": named, "gap_ms": gap_ms}),
+                        );
+                    }
+                    let _ = cx.sentinel();
+                }
+            }
+        }
+        cx.w.hosts.imds.set_responder(Arc::new(|_m: &Msg, _c, _i| Action::Reply(vec![simple_response(200, &[], b"ok")])));
+    }
+    res.cov("host_header_names_another_endpoint_cases", host_hdr_cases);
 
     // ---- contention family (sampled, labelled): the BpfObject mutex is busy while connections are accepted
     let n_cont = if thorough { 120 } else { 30 };
